@@ -53,10 +53,11 @@ const (
 	Livelock                 // step budget exhausted
 	Panicked                 // a managed goroutine panicked
 	Aborted                  // Abort() called by the harness
+	Pruned                   // ended early: the state was already visited with at least this budget
 )
 
 func (v Verdict) String() string {
-	return [...]string{"completed", "deadlock", "hang", "livelock", "panic", "aborted"}[v]
+	return [...]string{"completed", "deadlock", "hang", "livelock", "panic", "aborted", "pruned"}[v]
 }
 
 // ChoicePoint records one recorded decision.
@@ -71,6 +72,7 @@ type ChoicePoint struct {
 type pending struct {
 	kind  OpKind
 	obj   uint64
+	read  bool        // the operation only reads the object (atomic loads)
 	ready func() bool // nil: always ready
 	where string
 }
@@ -91,6 +93,10 @@ type G struct {
 	fn       func()
 	steps    int
 	spawned  int
+	// happens-before fingerprinting (Options.HB)
+	nameH  uint64
+	chain  uint64
+	objCtr uint64
 }
 
 func (g *G) ID() int { return g.id }
@@ -107,6 +113,10 @@ type Options struct {
 	// ReverseOthers: among the goroutines other than the running one, the default order is
 	// newest first instead of oldest first (a second base schedule for the bounded search).
 	ReverseOthers bool
+	// HB: maintain happens-before fingerprints (hb.go); Visited, when set, is consulted at
+	// every choice point beyond the prefix: returning true ends the execution as Pruned.
+	HB      bool
+	Visited func(key uint64) bool
 }
 
 // Result of one execution.
@@ -120,6 +130,8 @@ type Result struct {
 	Diverged   string   // non-empty: replay prefix did not fit (nondeterminism)
 	TraceHash  uint64
 	VTime      int64
+	HBFinal    uint64 // happens-before fingerprint of the whole execution (Options.HB)
+	PrunedAt   int    // >= 0: the execution was ended at this choice index (state already visited)
 }
 
 // Sched is one execution's scheduler.
@@ -145,7 +157,18 @@ type Sched struct {
 	mainDone bool
 	inHook   bool
 	seqTimer int
+	hbSum    uint64
+	hbUniq   uint64
+	objs     map[uint64]*objState
+	prunedAt int
 }
+
+// DefaultHB / DefaultVisited are applied to every Run of this process (set by the schedule
+// explorer around the executions of a search that uses happens-before pruning).
+var (
+	DefaultHB      bool
+	DefaultVisited func(key uint64) bool
+)
 
 // S is the active scheduler (nil outside Run).
 var S *Sched
@@ -159,13 +182,17 @@ func Run(opts Options, main func()) *Result {
 	atomic.AddUint64(&Beat, 1)
 	atomic.StoreInt32(&InRun, 1)
 	defer atomic.StoreInt32(&InRun, 0)
+	if DefaultHB {
+		opts.HB = true
+		opts.Visited = DefaultVisited
+	}
 	if opts.Horizon == 0 {
 		opts.Horizon = 3600 * 1e9
 	}
 	if opts.MaxSteps == 0 {
 		opts.MaxSteps = 2000000
 	}
-	s := &Sched{opts: opts, finished: make(chan struct{}, 1), armed: opts.ArmedAtStart}
+	s := &Sched{opts: opts, finished: make(chan struct{}, 1), armed: opts.ArmedAtStart, prunedAt: -1}
 	S = s
 	g0 := s.newG(main, "main")
 	s.cur = g0
@@ -186,13 +213,14 @@ func Run(opts Options, main func()) *Result {
 	}
 	S = nil
 	return &Result{Verdict: s.verdict, Points: s.points, Steps: s.steps, PanicValue: s.panicV, PanicStack: s.panicS,
-		Blocked: s.blocked, Diverged: s.diverged, TraceHash: s.thash, VTime: s.now}
+		Blocked: s.blocked, Diverged: s.diverged, TraceHash: s.thash, VTime: s.now, HBFinal: s.hbSum, PrunedAt: s.prunedAt}
 }
 
 func (s *Sched) newG(fn func(), name string) *G {
 	g := &G{id: len(s.gs), name: name, wake: make(chan struct{}, 1), doneCh: make(chan struct{}), fn: fn, selIdx: -2}
 	g.pend = pending{kind: OpStart}
 	s.gs = append(s.gs, g)
+	s.hbInitG(g, s.cur)
 	return g
 }
 
@@ -373,6 +401,15 @@ var (
 // to perform and yields the decision to the scheduler. It returns false when the execution
 // is being torn down (the caller must then return a zero result without blocking).
 func Point(kind OpKind, obj uint64, ready func() bool) bool {
+	return point(kind, obj, ready, false)
+}
+
+// PointR is Point for an operation that only reads its object.
+func PointR(kind OpKind, obj uint64, ready func() bool) bool {
+	return point(kind, obj, ready, true)
+}
+
+func point(kind OpKind, obj uint64, ready func() bool, read bool) bool {
 	s := S
 	atomic.AddUint64(&Beat, 1)
 	if s == nil {
@@ -396,7 +433,7 @@ func Point(kind OpKind, obj uint64, ready func() bool) bool {
 		g.exiting = true
 		runtime.Goexit()
 	}
-	g.pend = pending{kind: kind, obj: obj, ready: ready}
+	g.pend = pending{kind: kind, obj: obj, ready: ready, read: read}
 	if WantWhere {
 		g.pend.where = caller(1)
 	}
@@ -500,6 +537,9 @@ func (s *Sched) dispatch(g *G) {
 		}
 		next := en[idx]
 		next.steps++
+		if s.opts.HB {
+			s.hbPoint(next)
+		}
 		if s.opts.RecordTrace {
 			s.thash = (s.thash ^ uint64(next.id+1)) * 1099511628211
 			s.thash = (s.thash ^ uint64(next.pend.kind)<<8 ^ next.pend.obj<<16) * 1099511628211
@@ -543,7 +583,17 @@ func (s *Sched) choose(n int, curEnabled, selCase bool, cost int) int {
 			return 0
 		}
 	}
+	if s.opts.Visited != nil && i >= len(s.opts.Prefix) && !selCase && s.prunedAt < 0 {
+		if s.opts.Visited(s.hbKey(s.cur)) {
+			s.prunedAt = i
+			s.fail(Pruned)
+			return 0
+		}
+	}
 	s.points = append(s.points, ChoicePoint{N: n, Chosen: c, CurEnabled: curEnabled, SelCase: selCase, Cost: cost})
+	if s.opts.HB && selCase && s.cur != nil {
+		s.cur.setChain(s, mix(s.cur.chain, uint64(c)+0x5e1))
+	}
 	return c
 }
 
@@ -581,6 +631,12 @@ func (s *Sched) advanceClock() int {
 	}
 	if best > s.now {
 		s.now = best
+	}
+	if s.opts.HB {
+		// a clock jump (sleepers woken, timers fired from scheduler context) is not modelled
+		// as events: make every later fingerprint of this execution unique
+		s.poison(nil)
+		s.hbObj(s.gs[0], objClock).lastW = s.hbUniq ^ uint64(s.steps)<<20
 	}
 	for _, h := range s.gs {
 		if !h.done && h.pend.kind == OpSleep && h.deadline <= s.now {
@@ -626,6 +682,7 @@ func Now() int64 {
 	if S == nil {
 		return 0
 	}
+	Event(OpYield, objClock, false)
 	return S.now
 }
 
